@@ -1,0 +1,12 @@
+//go:build verif
+
+// Contracts for package scanner, read by the verification machinery in /verif.
+// This file contains no executable code; it is compiled only with -tags verif.
+package scanner
+
+/*@
+// summary used by callers: scanning may report through the handler it was given and allocates the token slice
+func Scan
+  trusted
+  modifies *
+@*/
